@@ -37,11 +37,15 @@ def run(tier, seed):
     run_contracts(rep, color_contracts(5 if q else 7))
     # the K obligations are complete case analyses for the stated n, not proofs for all n: they are labelled bounded
     for ob in rep.obs:
-        if ob.target and "assign_colors" in ob.target:
+        if ob.target and "assign_colors[n=" in ob.target:
             ob.kind = "bounded"
             ob.bound = "K: all lifetime configurations of n symbols, n <= %d" % (5 if q else 7)
             if ob.verdict == "discharged":
                 ob.verdict = HELD
+    # track U: the same function for symbol lists of every length (loop invariants + ghost state): proved obligations
+    from contracts.regalloc_u import u_contract
+
+    run_contracts(rep, [u_contract()])
     over_16_live(rep)
     replay_known(rep, "C04")
     run_bounded(rep, "C04", [("pressure", {"depth": 4, "max_stmts": 8, "max_funcs": 3}, "calls", 500 if q else 12000),
@@ -49,7 +53,8 @@ def run(tier, seed):
                              ("general", {}, "default", 900 if q else 20000)],
                 budget_s=75 if q else 1500, seed=seed, want=["C04", "C01", "C02"])
     rep.trust("spec/ic10_machine.py, spec/dialect.py (a clobbered live value shows up as a difference of effects)", "pyvc symbolic execution of assign_colors (complete unrolling for n symbols)")
-    rep.assume("assign_colors: bounded symbolic (K) - every list of n <= N symbols with arbitrary integer lifetimes, not all n",
+    rep.assume("assign_colors is proved for every number of symbols (track U: 2 loop invariants of 10 + 9 clauses, ghost owner lists / slot fields; mathematical integers); the K obligations (n <= N, complete unrolling) are an independent second encoding of the same function and are labelled bounded",
+               "U proof: quantified obligations are discharged by z3 e-matching (MBQI off); 'hypotheses consistent' guards can only show that false is not derivable by instantiation, not exhibit a model",
                "sorted(xs, key) is an assumed external contract (stable permutation, non-decreasing in key)",
                "that line-interval lifetimes cover real liveness is a whole-program claim: only exercised by the bounded simulation check (dynamically witnessed clobbers only)")
     return rep.finish(min_obligations=10)
